@@ -614,16 +614,21 @@ class C04(Property):
         'user-supplied substance_symbols (OrderedDict or plain dict) / parameter_symbols of _create_odesys: modelled for Symbol(key) values '
         '(theorems user_symbols, user_symbols_kinetic_model, plain_dict_symbols_bind_by_key); other symbol names and a user time_symbol are '
         'not modelled',
-        'rhsG_is_NT_r (active substitutions) is stated in the internal form only (N^T r for what `variables` resolves to): no explicit-'
-        'environment corollary with a capture hypothesis for Expr-valued substitutions; the oracle covers it (own expectation from the case)',
+        'rhsG_is_NT_r is stated in the internal form (N^T r for what `variables` resolves to); explicit-environment corollaries exist for '
+        'constants= (constants_kinetic_model) and user symbols (user_symbols_kinetic_model), NOT for Expr-valued (active) substitutions: there '
+        'the oracle decides (own expectation from the case)',
         '_create_odesys with a substance named like a parameter / unique key (one sympy symbol for both): listed finding '
         '_create_odesys:substance-named-like-parameter-key, the oracle claims N^T r with the two quantities kept apart (with user-supplied symbol '
         'dicts the oracle still makes no claim there); a unique key called \'time\' that is substituted is accepted '
         'by get_odesys but `unmodelled` in the Lean model (never generated)',
         'odesys.f_cb and extra[\'rate_exprs_cb\'] (lambdified float code): correspondence and oracle at rational points only',
         'the order of the CSTR keys inside param_names (a Python set): compared as a set, no theorem',
-        'linear_invariants handed to SymbolicSys (C05) and variables[\'time\']: not part of the model',
-        'when _create_odesys accepts: inversion lemma only (buildRhs\'_ok), no success characterisation like get_odesys_accepts',
+        'linear_invariants handed to SymbolicSys: not a field of the model\'s OdeSys; that the GENERATED right-hand sides conserve every linear '
+        'invariant of the stoichiometry is proved (generated_rhs_conserves_weights; C05.generated_rhs_conserves for the composition vectors); '
+        'variables[\'time\'] is not part of the model',
+        'acceptance of both builders is characterised by one-sided theorems (get_odesys_accepts / get_odesys_accepted_implies, '
+        'create_odesys_accepts / create_odesys_accepted_implies), not by an iff: the two sides differ in the name-capture and '
+        'Python-number cases',
         'non-integral stoichiometric coefficients, with the all_integral check omitted: (a) products / inactive parts (H2O2 -> H2O + 1/2 O2), '
         '(b) rational ACTIVE reaction orders p/q (H2 + 1/2 Br2 (+ 1/2 Br2) -> 2 HBr: rate k*[H2]*[Br2]^(1/2)). The Lean model keeps NATURAL '
         'coefficients (C03\'s Model/Kinetics.lean: exponents must be naturals for c^nu to stay in a ring; the polynomial model has no roots), '
